@@ -35,6 +35,7 @@ class Op:
         self.inn = st["in"]
         self.dup = st["dup"]
         self.root = st["root"]
+        self.al = set(st.get("al") or [])
 
     def kids(self, h):
         return [i + 1 for i, n in enumerate(self.nodes) if n["p"] == h]
@@ -80,10 +81,12 @@ class Op:
         n = self.node(x)
         if n["ty"] == "":
             return n["f"]
+        # an aliased field keeps its alias in every copy (same response position, the copies merge)
+        name = ("a%d: %s" % (x, n["f"])) if x in self.al else n["f"]
         if copy:
             leafs = [y for y in self.kids(x) if self.node(y)["ty"] == "" and self.node(y)["tc"] == ""]
-            return "%s { %s }" % (n["f"], " ".join(self.node(y)["f"] for y in leafs))
-        return "%s { %s }" % (n["f"], self.selset(x, variant))
+            return "%s { %s }" % (name, " ".join(self.node(y)["f"] for y in leafs))
+        return "%s { %s }" % (name, self.selset(x, variant))
 
     def render_items(self, items, variant, outer_tc):
         """items: list of ('n'|'d'|'f', id) inside one selection set / fragment whose type condition is outer_tc."""
@@ -431,6 +434,7 @@ def run(ctx):
 
         # ---- 2. generation ---------------------------------------------------------------------------------------
         g1 = ctx.tlc_must_pass("resolve", "Gen_DeferQ", "Gen_DeferQ_bfs1.cfg", timeout=900, workers=4, deadlock=False, tag="gen-ops-bfs1")
+        gp = ctx.tlc_must_pass("resolve", "Gen_DeferQ", "Gen_DeferQ_pin.cfg", timeout=900, workers=4, deadlock=False, tag="gen-ops-pinned-family")
         nsim = 80 if quick else 900
         gs = ctx.tlc_must_pass("resolve", "Gen_DeferQ", "Gen_DeferQ_sim.cfg", timeout=1800, workers=1, deadlock=False,
                                simulate=nsim, depth=8, seed=ctx.seed, tag="gen-ops-simulate")
@@ -442,28 +446,40 @@ def run(ctx):
                 d.setdefault(lib.sha(s), s)
             return list(d.values())
         ops1 = uniq(g1.printed)
+        opsP = uniq(gp.printed)   # focused family: sibling fragments sharing an object field with a fragment nested inside it
         opsS = [s for s in uniq(gs.printed) if len(s["acts"]) >= 2]
         scheds = uniq(gk.printed)
         plain = [s for s in scheds if not s["park"] and not s["fault"]]
         parks = [s for s in scheds if s["park"]]
         faults = [s for s in scheds if s["fault"]]
-        ctx.log("generated: %d single-action operations (BFS, exhaustive), %d sampled deeper operations, %d schedule seeds "
-                "(%d orders, %d park, %d fault)" % (len(ops1), len(opsS), len(scheds), len(plain), len(parks), len(faults)))
+        ctx.log("generated: %d single-action operations x <=1 aliased ancestor (BFS, exhaustive), %d operations of the focused "
+                "shared-object family (BFS, exhaustive), %d sampled deeper operations, %d schedule seeds (%d orders, %d park, %d fault)" % (
+                    len(ops1), len(opsP), len(opsS), len(scheds), len(plain), len(parks), len(faults)))
         rng.shuffle(ops1)
         rng.shuffle(opsS)
+        plain1 = [o for o in ops1 if not o["al"]]
+        alias1 = [o for o in ops1 if o["al"]]
         if quick:
-            chosen = ops1[:240] + opsS[:460]
+            chosen = plain1[:150] + alias1[:140] + opsP + opsS[:380]
         else:
-            chosen = ops1 + opsS[:2600]
+            chosen = ops1 + opsP + opsS[:2000]
         if os.environ.get("C10_OPS"):  # developer knob: "<bfs>,<sim>"
             a, b = os.environ["C10_OPS"].split(",")
-            chosen = ops1[:int(a)] + opsS[:int(b)]
+            chosen = ops1[:int(a)] + opsP + opsS[:int(b)]
 
         def pick_scheds():
             if quick:
                 return rng.sample(plain, 10) + rng.sample(parks, 4) + rng.sample(faults, 3)
             # all 120 orders over 5 indices (the driver restricts them to the observed exchanges and de-duplicates)
             return plain + rng.sample(parks, 12) + rng.sample(faults, 10)
+        # different generator states can print the same operation (e.g. creation order of the fragments)
+        seen_text, uniq_chosen = set(), []
+        for st in chosen:
+            k = (Op(st).text("defer"), st["nul"])
+            if k not in seen_text:
+                seen_text.add(k)
+                uniq_chosen.append(st)
+        chosen = uniq_chosen
         cases = []
         for i, st in enumerate(chosen):
             cases.append(make_case("c%05d" % i, st, pick_scheds(), 12 if quick else 60))
@@ -654,7 +670,7 @@ def run(ctx):
         "runs_rejected_by_class": rejected_runs,
         "samples": samples,
         "exhaustive": False,
-        "exhaustive_part": "all single-action decorations of the 5 menu queries are %s; model checking is exhaustive for <= %d defers" % (
+        "exhaustive_part": "all single-action decorations of the 5 menu queries x <=1 aliased ancestor are %s; the focused shared-object family is always replayed; model checking is exhaustive for <= %d defers" % (
             "replayed" if not quick else "generated (a seed-selected subset is replayed)", 3 if quick else 4),
     })
     ctx.assumptions += [
